@@ -94,6 +94,9 @@ func (c *Compiler) validateGrouping(
 			return err
 		}
 	}
+	// Only groupings on the current chain of uses can close a cycle: a
+	// grouping may legitimately be used more than once.
+	delete(group_map, g.Name())
 
 	return nil
 }
